@@ -307,16 +307,17 @@ func (c *Conn) GetNextActionFromByte(start int64) *NextActionInfo {
 
 	actions := c.Shapes.M[c.Context.URLRegex].Shape.Actions
 
-	if l := len(actions); l != 0 {
-		ind := sort.Search(len(actions),
-			func(i int) bool { return actions[i].getByte() >= start })
+	ind := sort.Search(len(actions),
+		func(i int) bool { return actions[i].getByte() >= start })
 
-		return c.GetNextActionFromIndex(int64(ind))
-	}
-
-	return &NextActionInfo{
-		ActionNext: false,
-	}
+	// The locks are held: do not go through GetNextActionFromIndex, which
+	// would acquire both read locks a second time. A sync.RWMutex must not be
+	// read-locked recursively: as soon as a writer is waiting (Write taking
+	// the shape's lock to perform an action on another connection, or the
+	// handler swapping the shape map) the second RLock blocks behind that
+	// writer, the writer waits for the first RLock, and every connection
+	// using the shape hangs.
+	return nextActionFromIndex(actions, int64(ind))
 }
 
 // GetNextActionFromIndex takes in an index and returns the first action after the index that
@@ -334,27 +335,28 @@ func (c *Conn) GetNextActionFromIndex(ind int64) *NextActionInfo {
 	c.Shapes.M[c.Context.URLRegex].RLock()
 	defer c.Shapes.M[c.Context.URLRegex].RUnlock()
 
-	actions := c.Shapes.M[c.Context.URLRegex].Shape.Actions
+	return nextActionFromIndex(c.Shapes.M[c.Context.URLRegex].Shape.Actions, ind)
+}
 
-	if l := int64(len(actions)); l != 0 {
+// nextActionFromIndex returns the first action at or after index ind that has
+// a non zero count, if there is one. The caller holds the lock of the shape
+// that actions belongs to.
+func nextActionFromIndex(actions []Action, ind int64) *NextActionInfo {
+	l := int64(len(actions))
 
-		for ind < l && (actions[ind].getCount() == 0) {
-			ind++
-		}
+	for ind < l && (actions[ind].getCount() == 0) {
+		ind++
+	}
 
-		if ind >= l {
-			return &NextActionInfo{
-				ActionNext: false,
-			}
-		}
+	if ind >= l {
 		return &NextActionInfo{
-			ActionNext: true,
-			Index:      ind,
-			ByteOffset: actions[ind].getByte(),
+			ActionNext: false,
 		}
 	}
 	return &NextActionInfo{
-		ActionNext: false,
+		ActionNext: true,
+		Index:      ind,
+		ByteOffset: actions[ind].getByte(),
 	}
 }
 
